@@ -116,6 +116,19 @@ class Emitter:
 
     def emit(self, text, fn=None, kind='code'):
         for ln in text.split('\n'):
+            if kind == 'verbatim':
+                # hand-written lemmas / verified helper fns: attribute their labelled clauses to `lemma::<name>`
+                mf = re.match(r'\s*(?:pub\s+)?(?:broadcast\s+)?(?:open\s+|closed\s+)?(proof\s+|spec\s+)?fn\s+(\w+)', ln)
+                if mf:
+                    self.vfn = 'lemma::' + mf.group(2)
+                    if (mf.group(1) or '').strip() != 'spec':
+                        self.functions.setdefault(self.vfn, {'labels': [], 'source': 'verif', 'first_line': len(self.lines) + 1,
+                                                             'last_line': len(self.lines) + 1, 'lemma': True})
+                    else:
+                        self.vfn = None
+                fn = getattr(self, 'vfn', None)
+                if fn and fn in self.functions:
+                    self.functions[fn]['last_line'] = len(self.lines) + 1
             self.lines.append(ln)
             m = re.search(r'//\s*@(\S+)\s+(\S+)\s*$', ln)
             self.origin.append({'fn': fn, 'kind': kind,
@@ -277,10 +290,15 @@ def generate(unit_path):
         i += 1
         if d.name == 'verbatim':
             em.emit('\n'.join(d.payload), kind='verbatim')
-        elif d.name == 'include':
+        elif d.name in ('include', 'use'):
+            # @@use = include whose obligation labels belong to another unit (lemmas re-used here are
+            # re-verified but not counted twice)
             p = os.path.join(VERIF, 'verus', d.arg)
-            em.emit(f'// ---- include {d.arg}', kind='verbatim')
-            em.emit(open(p).read().rstrip('\n'), kind='verbatim')
+            em.emit(f'// ---- {d.name} {d.arg}', kind='verbatim')
+            txt = open(p).read().rstrip('\n')
+            if d.name == 'use':
+                txt = re.sub(r'//\s*@[C0-9,]+\s+\S+\s*$', '', txt, flags=re.M)
+            em.emit(txt, kind='verbatim')
         elif d.name == 'source':
             src = Source.get(d.arg)
         elif d.name in ('impl', 'trait'):
